@@ -1,6 +1,7 @@
 """Interpreter for generated API programs (C10).  The same program, run under
 the C accelerator and under PURE_PYTHON, must yield the same trace."""
 import types
+from vlib.callform import Form
 
 IFACE_MODULE = 'verif.c10'
 NAMES = ['', 'a', 'b']
@@ -242,6 +243,14 @@ class World:
             class SL:
                 __slots__ = ()
             ob = SL()
+        elif kind == 'slots_provides':
+            # no instance __dict__, but a slot for the instance declaration
+            from zope.interface import classImplements
+
+            class SLP:
+                __slots__ = ('__provides__',)
+            classImplements(SLP, self.ifaces[0])
+            ob = SLP()
         else:
             raise AssertionError(kind)
         self.odd[kind] = ob
@@ -473,6 +482,8 @@ def run_program(prog):
             return [W.canon(x) for x in W.regs[r].ro]
         if k in ('lookup', 'lookup1', 'lookupAll', 'names', 'subscriptions'):
             reg = W.regs[op[1] % len(W.regs)]
+            if len(op) > 6:
+                reg = Form(reg, op[6])
             specs = [W.spec(r) for r in op[2]]
             prov = W.spec(op[3])
             nm = op[4] if isinstance(op[4], str) else BADNAMES[op[4][1]]
@@ -494,6 +505,8 @@ def run_program(prog):
         if k in ('queryAdapter', 'adapter_hook', 'queryMultiAdapter',
                  'subscribers'):
             reg = W.regs[op[1] % len(W.regs)]
+            if len(op) > 6:
+                reg = Form(reg, op[6])
             objs = [W.obj(r) for r in op[2]]
             prov = W.spec(op[3])
             nm = op[4] if isinstance(op[4], str) else BADNAMES[op[4][1]]
